@@ -264,6 +264,16 @@ func (fc *fnCtx) evalExpr(e ast.Expr, ev *evalCtx, text string) Val {
 				return Val{T: fmt.Sprintf("(select %s %s)", fc.heapVar(ev.cur, dom, ds), a.T), S: "(Array " + fc.sortOf(mt.Key()) + " Bool)"}
 			}
 			return Val{T: fmt.Sprintf("(select %s %s)", fc.heapVar(ev.cur, val, vs), a.T), S: "(Array " + fc.sortOf(mt.Key()) + " " + fc.sortOf(mt.Elem()) + ")"}
+		case "fdom", "fval":
+			mt, ok := a.Ty.Underlying().(*types.Map)
+			if !ok {
+				return bad("%s of non-map", fn.Name)
+			}
+			fd, fv := fc.frozenFns(mt)
+			if fn.Name == "fdom" {
+				return Val{T: fmt.Sprintf("(%s %s)", fd, a.T), S: "(Array " + fc.sortOf(mt.Key()) + " Bool)"}
+			}
+			return Val{T: fmt.Sprintf("(%s %s)", fv, a.T), S: "(Array " + fc.sortOf(mt.Key()) + " " + fc.sortOf(mt.Elem()) + ")"}
 		case "closed":
 			return Val{T: fmt.Sprintf("(select %s %s)", fc.heapVar(ev.cur, "ch!closed", "(Array V Bool)"), a.T), S: "Bool"}
 		case "full":
